@@ -42,6 +42,24 @@ def refine : Alg → Option Alg
     let m := (l + u) / 2
     (cmpRat (root f l u) m).map (fun c => if c = 0 then rat m else if c < 0 then root f l m else root f m u)
 
+/-- mirror of `lp_algebraic_number_refine_with_point`: narrow the interval with a rational inside it -/
+def refineAt (q : Rat) : Alg → Option Alg
+  | rat p => some (rat p)
+  | root f l u =>
+    if l < q ∧ q < u then
+      (cmpRat (root f l u) q).map (fun c => if c = 0 then rat q else if c < 0 then root f l q else root f q u)
+    else some (root f l u)
+
+/-- mirror of `lp_algebraic_number_reduce_polynomial`: replace the defining polynomial by a divisor -/
+def reducePoly (g : QPoly) : Alg → Alg
+  | rat p => rat p
+  | root _ l u => root g l u
+
+/-- mirror of `lp_algebraic_number_restore_interval`: go back to an earlier (wider) isolating interval -/
+def restoreInterval (l u : Rat) : Alg → Alg
+  | rat p => rat p
+  | root f _ _ => root f l u
+
 def lo : Alg → Rat | rat q => q | root _ l _ => l
 def hi : Alg → Rat | rat q => q | root _ _ u => u
 def width (a : Alg) : Rat := a.hi - a.lo
